@@ -458,6 +458,12 @@ func (rtcmHandler *Handler) GetMessage(bitStream []byte) (*Message, error) {
 
 		const timestampPosition = utils.LeaderLengthBits + header.LenMessageType + header.LenStationID
 
+		// The message must be long enough to contain the timestamp.
+		if (messageLength+utils.LeaderLengthBytes)*8 < timestampPosition+header.LenTimeStamp {
+			message.ErrorMessage = "MSM message is too short to contain a timestamp"
+			return message, errors.New(message.ErrorMessage)
+		}
+
 		message.Timestamp =
 			uint(utils.GetBitsAsUint64(bitStream, timestampPosition, header.LenTimeStamp))
 
